@@ -493,7 +493,20 @@ TextPosIdentities ==
         /\ "d-text" \in c.classes
 
 (***************************************************************************)
-Cases == CASE Family = "solve" -> SolveCases
+(* C10: references that can never be satisfied make the transform fail,    *)
+(* whatever the way the reference is written and used                      *)
+(***************************************************************************)
+UnsatCases ==
+    {[fam |-> "unsat", target |-> t, via |-> v, form |-> f] :
+        \* what the reference points at: nothing, an element with an id but no bounding box,
+        \* the element itself, a partner that refers back
+        t \in {"missing", "empty-g", "style-g", "defs-only-g", "self", "mutual", "point-size"},
+        \* written with the id or as "the previous element"
+        v \in {"id", "prev"},
+        \* how the referring element uses it
+        f \in {"dir", "loc", "loc-xy2", "loc-cxy", "scalar-x", "scalar-x2", "size", "line-xy1", "surround", "inside", "connector", "points"}}
+
+Cases == CASE Family = "unsat" -> UnsatCases [] Family = "solve" -> SolveCases
            [] Family = "textpos" -> TextPosCases
            [] Family = "contain" -> ContainCases
            [] Family = "conn" -> ConnCases
